@@ -1,5 +1,8 @@
-# sourced by every script: offline Go environment
+# sourced by every script: offline Go environment, and the root of this checkout of /verif
+# (the scripts work from any copy of the tree, e.g. a `vp run` snapshot)
 export GOFLAGS=-mod=mod GOPROXY=off GOSUMDB=off GOTOOLCHAIN=local
 export CGO_ENABLED=1
 export LXRBITSIZE=8
-export VERIF_DIR="${VERIF_DIR:-/verif}"
+VERIF_ROOT="$(cd "$(dirname "${BASH_SOURCE[0]}")/.." && pwd)"
+export VERIF_ROOT
+export VERIF_DIR="${VERIF_DIR:-$VERIF_ROOT}"
